@@ -38,6 +38,7 @@ type c03Set struct {
 	Hs      float64 // bound on the 1-norm of s resp. u
 	sigE    float64 // true nominal standard deviation of Xe
 	sigS    float64
+	wide    bool    // from c03_wide.go: non-default distributions on unequal primes
 	kappa   float64 // 2 for the conjugate-invariant ring (‖fold a‖₁ ≤ 2‖a‖₁)
 	sk, sk2 *rlwe.SecretKey
 	pk      *rlwe.PublicKey
@@ -197,6 +198,7 @@ func genC03(c *Ctx) {
 		c.Count("params:xs=" + s.xsKind)
 		c03RunSet(c, s, encPerSet)
 	}
+	c03RunWideSets(c)
 	c03DeclaredStd(c)
 }
 
